@@ -3,7 +3,7 @@
    (gK = index of the cumulative point, gacc = indices accepted so far, gskip = ranges skipped by
    FORWARD-TSN / forced pops).  Only statements closed by [exact] + Print Assumptions here. *)
 From Coq Require Import ZArith Bool List.
-From Sctp Require Import Gen SnaProofs RPQ RPQProofs.
+From Sctp Require Import Gen SnaProofs RPQ RPQProofs RPQWordProofs.
 Import ListNotations.
 Open Scope Z_scope.
 
@@ -55,12 +55,30 @@ Theorem c05_ring_condition : forall m, 0 <= m < 2147483584 ->
 Proof. exact rpq_new_ok. Qed.
 Print Assumptions c05_ring_condition.
 
+(* getGapAckBlocks as written — a word-by-word scan with TrailingZeros-style searches, 32-bit TSN
+   arithmetic and uint16 truncation of the offsets (model gap_blocks_w, a transcription of the Go
+   loop) — returns exactly the blocks of the bit-level specification above, in every reachable
+   state, and the loop terminates within the model's fuel.  The bound on m covers every window
+   the association can configure (second statement: at most 40000 for any receive-buffer size). *)
+Theorem c05_word_scan_is_spec : forall m k0 evs,
+  0 <= m <= 64936 ->
+  run_ok (ginit (rpq_new m) k0) evs ->
+  gap_blocks_w (fst (grun (ginit (rpq_new m) k0) evs)) =
+  Some (gap_blocks (fst (grun (ginit (rpq_new m) k0) evs))).
+Proof. exact word_scan_is_spec. Qed.
+Print Assumptions c05_word_scan_is_spec.
+
+Theorem c05_configured_windows_in_range : forall b, in32 b -> 2000 <= getMaxTSNOffset b <= 40000.
+Proof. exact getMaxTSNOffset_range. Qed.
+Print Assumptions c05_configured_windows_in_range.
+
 (* non-vacuity: a history straddling the 2^32 wrap with default-buffer window *)
 Example c05_example_history :
   let evs := [EArr 4294967297; EArr 4294967299; EArr 4294967300; EArr 4294967297; EPop false; EArr 4294967296;
               EFwd 4294967298; EPop false] in
   let s := grun (ginit (rpq_new 8388) 4294967195) evs in
   gap_blocks (fst (grun (ginit (rpq_new 8388) 4294967195) (firstn 4 evs))) = [(102, 102); (104, 105)] /\
+  gap_blocks_w (fst (grun (ginit (rpq_new 8388) 4294967195) (firstn 4 evs))) = Some [(102, 102); (104, 105)] /\
   cum (fst s) = 3 /\ gK (snd s) = 4294967299 /\ gap_blocks (fst s) = [(1, 1)].
 Proof. vm_compute. repeat split. Qed.
 
